@@ -1187,3 +1187,203 @@ func wireEmitOnceKeys(w *World, wc *wireCtx, r *Report, prop string) {
 	}
 	r.note("%s: lookups in generator-instance maps examined: %d", rule, n)
 }
+
+// C15/helpers-defined-before-use: "every helper it calls exists when called".
+//
+// The dissector script defines one `local function <prefix><packet>` per packet and the body of one packet's function calls the
+// functions of the packets it contains. In Lua a local function is visible only to the code that follows its declaration: a call,
+// inside an earlier function, to a function declared later resolves to a nil global when the script runs. Decided from the
+// generator's source:
+//   definitions  emission sites whose constant text is "local function <prefix>" followed by the packet's name;
+//   uses         emission sites whose constant text contains "<prefix>" followed by a name verb and "(" (a call);
+//   demand       if there are uses, then either the definitions are emitted in an order computed by a dependencies-first walk (the
+//                collection the definition loop ranges over is returned by a function that keeps a visited set, descends into the
+//                packets of by-name object fields and of match pairs, and appends a packet only after the descent), or every
+//                name is declared ahead of all definitions (an emission site "local <prefix><name>" without "function").
+func c15HelpersDefinedFirst(w *World, wc *wireCtx, r *Report) {
+	const rule = "C15/helpers-defined-before-use"
+	own := wc.anchors["lua"]["own"]
+	if len(own) == 0 {
+		r.fail(rule, "lua emitters found", "internal/parser/lua_wsp_generator.go", "no emitter of the Lua generator resolved")
+		return
+	}
+	defRE := regexp.MustCompile(`local function ([A-Za-z_][A-Za-z_0-9]*)%s\(`)
+	fwdRE := regexp.MustCompile(`local ([A-Za-z_][A-Za-z_0-9]*)%s\s*(\n|$|=)`)
+	type fsite struct {
+		fn     *ssa.Function
+		ins    ssa.Instruction
+		format string
+	}
+	var formats []fsite
+	for _, fn := range own {
+		forEachInstr(fn, func(_ *ssa.BasicBlock, ins ssa.Instruction) {
+			c, ok := ins.(ssa.CallInstruction)
+			if !ok || c.Common().StaticCallee() == nil {
+				return
+			}
+			fi := -1
+			switch c.Common().StaticCallee().String() {
+			case "fmt.Sprintf":
+				fi = 0
+			case "fmt.Fprintf":
+				fi = 1
+			}
+			if fi < 0 || fi >= len(c.Common().Args) {
+				return
+			}
+			if k, ok := c.Common().Args[fi].(*ssa.Const); ok && k.Value != nil && k.Value.Kind() == constant.String {
+				formats = append(formats, fsite{fn, ins, constant.StringVal(k.Value)})
+			}
+		})
+	}
+	prefixes := map[string][]fsite{}
+	for _, f := range formats {
+		if m := defRE.FindStringSubmatch(f.format); m != nil {
+			prefixes[m[1]] = append(prefixes[m[1]], f)
+		}
+	}
+	if len(prefixes) == 0 {
+		r.note("%s: the Lua generator defines no per-packet local functions", rule)
+		return
+	}
+	for _, prefix := range sortedKeys(prefixes) {
+		defs := prefixes[prefix]
+		useRE := regexp.MustCompile(`(^|[^A-Za-z_0-9])` + regexp.QuoteMeta(prefix) + `%s\(`)
+		var uses []fsite
+		fwd := false
+		for _, f := range formats {
+			if defRE.MatchString(f.format) {
+				continue
+			}
+			if useRE.MatchString(f.format) {
+				uses = append(uses, f)
+			}
+			if m := fwdRE.FindStringSubmatch(f.format); m != nil && m[1] == prefix {
+				fwd = true
+			}
+		}
+		key := fmt.Sprintf("local functions %s<packet> are defined before the functions that call them", prefix)
+		if len(uses) == 0 {
+			r.pass(rule, key, w.instrPos(defs[0].ins), "never called from another emitted function")
+			continue
+		}
+		if fwd {
+			r.pass(rule, key, w.instrPos(defs[0].ins), "names are declared ahead of the definitions")
+			continue
+		}
+		// the loop(s) that emit the definitions for declared packets: call sites of the defining emitter outside itself
+		defFn := defs[0].fn
+		ordered, total := 0, 0
+		var bad string
+		for _, fn := range own {
+			if fn == defFn {
+				continue
+			}
+			forEachInstr(fn, func(b *ssa.BasicBlock, ins ssa.Instruction) {
+				c, ok := ins.(ssa.CallInstruction)
+				if !ok || calleeOf(c) != defFn {
+					return
+				}
+				// the packet argument: an element of which collection?
+				for _, a := range c.Common().Args {
+					a = stripIdentity(a)
+					if !typeIs(a.Type(), modPath+"/internal/model", "Packet") {
+						continue
+					}
+					ld, ok := a.(*ssa.UnOp)
+					if !ok {
+						continue
+					}
+					ia, ok := ld.X.(*ssa.IndexAddr)
+					if !ok {
+						continue
+					}
+					total++
+					coll := stripIdentity(ia.X)
+					if cc, ok := coll.(*ssa.Call); ok {
+						if g := calleeOf(cc); g != nil && dependenciesFirstOrder(w, g) {
+							ordered++
+							continue
+						}
+					}
+					bad = w.instrPos(ins)
+				}
+			})
+		}
+		switch {
+		case total == 0:
+			r.fail(rule, key, w.instrPos(defs[0].ins), "the place where the per-packet definitions are emitted for the declared packets was not found")
+		case ordered == total:
+			r.pass(rule, key, w.instrPos(defs[0].ins), "definitions are emitted in dependencies-first order")
+		default:
+			r.fail(rule, key, bad, fmt.Sprintf("the definitions are emitted in the order of a collection that is not sorted dependencies-first, and the names are not declared ahead: a packet that refers to a packet written later calls %s<name> before that local exists (a nil global at run time); %d call site(s), e.g. %s", prefix, len(uses), w.instrPos(uses[0].ins)))
+		}
+	}
+}
+
+// dependenciesFirstOrder: g returns a packet list built by a visited-set walk that descends into the packets of by-name object
+// fields and of match pairs and appends a packet only after the descent.
+func dependenciesFirstOrder(w *World, g *ssa.Function) bool {
+	if g == nil || g.Blocks == nil {
+		return false
+	}
+	cluster := append([]*ssa.Function{g}, g.AnonFuncs...)
+	inCluster := map[*ssa.Function]bool{}
+	for _, f := range cluster {
+		inCluster[f] = true
+	}
+	viaObject, viaMatch, postOrder, visitedSet := false, false, false, false
+	for _, fn := range cluster {
+		var descents, appends []ssa.Instruction
+		forEachInstr(fn, func(b *ssa.BasicBlock, ins ssa.Instruction) {
+			if c, ok := ins.(*ssa.Call); ok {
+				if bi, ok := c.Call.Value.(*ssa.Builtin); ok && bi.Name() == "append" && len(c.Call.Args) > 0 {
+					if sl, ok := c.Call.Args[0].Type().Underlying().(*types.Slice); ok && typeIs(sl.Elem(), modPath+"/internal/model", "Packet") {
+						appends = append(appends, ins)
+					}
+				}
+				t := calleeOf(c)
+				if t == nil || !inCluster[t] {
+					return
+				}
+				descents = append(descents, ins)
+				for _, a := range c.Call.Args {
+					a = stripIdentity(a)
+					if !typeIs(a.Type(), modPath+"/internal/model", "Packet") {
+						continue
+					}
+					if ld, ok := a.(*ssa.UnOp); ok && ld.Op == token.MUL {
+						if fa, ok := ld.X.(*ssa.FieldAddr); ok {
+							if tn, f, _, _ := fieldOf(fa); tn == "ObjectFieldAttribute" && f == "RefPacket" {
+								viaObject = true
+							}
+						}
+					}
+					if lk, ok := a.(*ssa.Lookup); ok && mapDesc(lk.X) == ".PacketsMap" && pairFieldOf(lk.Index) == "Value" {
+						viaMatch = true
+					}
+					if ex, ok := a.(*ssa.Extract); ok {
+						if lk, ok := ex.Tuple.(*ssa.Lookup); ok && mapDesc(lk.X) == ".PacketsMap" && pairFieldOf(lk.Index) == "Value" {
+							viaMatch = true
+						}
+					}
+				}
+			}
+		})
+		if len(visitedMarks(fn, 0)) > 0 {
+			visitedSet = true
+		}
+		for _, ap := range appends {
+			after := false
+			for _, d := range descents {
+				if instrReaches(d, ap) && !instrReaches(ap, d) {
+					after = true
+				}
+			}
+			if after {
+				postOrder = true
+			}
+		}
+	}
+	return viaObject && viaMatch && postOrder && visitedSet
+}
